@@ -275,6 +275,26 @@ func (e *env) auditPut(epoch int64, cid []byte, from *keys.PrivateKey, isIR bool
 		if !isIR {
 			sd = "non-member"
 		}
+		// now and then somebody else signs the transaction too, before or after the author: an Inner Ring
+		// member next to an outsider's result does not make the outsider a member (seeded change C20-5)
+		if b.Rng.IntN(4) == 0 {
+			co := runner.Pick(b.Rng, e.irs)
+			if isIR && b.Rng.IntN(2) == 0 {
+				co = runner.Pick(b.Rng, e.nodes)
+			}
+			if !co.PublicKey().Equal(from.PublicKey()) {
+				cs := world.G(world.Single(co))
+				if b.Rng.IntN(2) == 0 {
+					s = append(s, cs)
+				} else {
+					s = append([]world.SignerSpec{cs}, s...)
+				}
+				sd += "+co-signer"
+				if !isIR {
+					b.Hit("audit.put-outsider-result-co-signed-by-a-member")
+				}
+			}
+		}
 	} else if b.Rng.IntN(2) == 0 {
 		s = e.w.Alpha()
 		sd = "alphabet-without-key"
@@ -421,8 +441,25 @@ func (e *env) estPut(epoch int64, cid []byte, live bool, node *keys.PrivateKey, 
 	var s []world.SignerSpec
 	if witness {
 		s = []world.SignerSpec{world.G(world.Single(node))}
+		// now and then another storage node signs too: that changes nothing for the announcing key
+		if b.Rng.IntN(5) == 0 {
+			if co := runner.Pick(b.Rng, e.nodes); !co.PublicKey().Equal(node.PublicKey()) {
+				if b.Rng.IntN(2) == 0 {
+					s = append(s, world.G(world.Single(co)))
+				} else {
+					s = append([]world.SignerSpec{world.G(world.Single(co))}, s...)
+				}
+				b.Hit("estimation-co-signed-by-another-node")
+			}
+		}
 	} else {
 		s = e.w.Alpha()
+		// or the transaction carries a map member's witness while announcing for another key
+		if b.Rng.IntN(3) == 0 {
+			if co := runner.Pick(b.Rng, e.nodes); !co.PublicKey().Equal(node.PublicKey()) {
+				s = []world.SignerSpec{world.G(world.Single(co))}
+			}
+		}
 	}
 	r := e.w.Invoke(s, e.cn, "putContainerSize", epoch, cid, size, pub)
 	b.Tx(1)
@@ -932,7 +969,7 @@ func init() {
 			return 144
 		},
 		Chunk: 4,
-		Floors: []string{"reputation.put", "audit.put", "audit.put-refused-non-member", "audit.put-right-after-inner-ring-rotation", "estimation.put", "estimation-refused-node-outside-previous-map", "estimation-node-cleanup-fired", "estimation-node-cleanup-boundary-kept",
+		Floors: []string{"reputation.put", "audit.put", "audit.put-refused-non-member", "audit.put-outsider-result-co-signed-by-a-member", "audit.put-right-after-inner-ring-rotation", "estimation.put", "estimation-refused-node-outside-previous-map", "estimation-node-cleanup-fired", "estimation-node-cleanup-boundary-kept",
 			"estimation-total-cleanup-fired", "estimation-total-cleanup-boundary-kept", "neofsid.addKey", "neofsid.removeKey", "netmap.setConfig", "neofs.setConfig"},
 		Run: runC20,
 	})
